@@ -7,6 +7,7 @@ import (
 
 	plush "github.com/gobuffalo/plush/v5"
 
+	"verifharness/gen"
 	"verifharness/vrt"
 )
 
@@ -320,4 +321,50 @@ func FailedCall() {
 	vrt.Assert(got == "F["+itoa(A)+"||]7", "after the failed call the caller runs in its own scope: x is the caller's, y and z do not exist")
 	vrt.Assert(ctx.Value("w") == interface{}(7), "a top-level let after the failed call reaches the render's context")
 	vrt.Cover("done")
+}
+
+// ---- function bodies and call sites enumerated from a grammar, checked
+// against the reference interpreter of package gen
+func init() {
+	vrt.Register("C16_generated_functions", GeneratedFunctions)
+}
+
+func GeneratedFunctions() {
+	p := gen.Profile{Lets: true, Ctl: true, Unknown: true, Conds: 3, Vals: 3, Pres: 2}
+	if vrt.Tier() > 0 {
+		p = gen.Profile{Lets: true, Ctl: true, Unknown: true, Shadow: true, Conds: 0, Vals: 0}
+	}
+	g := &gen.G{P: p}
+	ar := 1 + vrt.Choice(2)
+	params := []string{"p", "q"}[:ar]
+	prog := []*gen.Stmt{gen.Fn("f", params, g.FnBody("p", 0))}
+	callAs := func(name string, a *gen.Expr) *gen.Expr {
+		if ar == 1 {
+			return gen.Call(name, a)
+		}
+		return gen.Call(name, a, gen.Add(a, gen.Lit(1)))
+	}
+	call := func(a *gen.Expr) *gen.Expr { return callAs("f", a) }
+	x := gen.Var("x")
+	switch vrt.Choice(9) {
+	case 0:
+		prog = append(prog, gen.Out(call(x)))
+	case 1:
+		prog = append(prog, gen.Out(call(call(x)))) // the value passed on
+	case 2:
+		prog = append(prog, gen.Let("v", call(x)), gen.Out(gen.Var("v")), gen.Out(gen.Add(gen.Var("v"), gen.Lit(1))))
+	case 3:
+		prog = append(prog, gen.IfElse(true, gen.Eq(call(x), gen.Var("t")), []*gen.Stmt{gen.Text("Y")}, []*gen.Stmt{gen.Text("N")}))
+	case 4:
+		prog = append(prog, gen.Out(gen.Add(call(x), call(gen.Lit(2))))) // two calls in one expression
+	case 5:
+		prog = append(prog, gen.For("", "e", gen.Var("xs"), []*gen.Stmt{gen.Out(call(gen.Var("e")))}))
+	case 6:
+		prog = append(prog, gen.Out(call(gen.Nil()))) // nil argument
+	case 7:
+		prog = append(prog, gen.IfElse(true, call(gen.Var("u")), []*gen.Stmt{gen.Text("Y")}, []*gen.Stmt{gen.Text("N")}), gen.Out(x)) // failing argument in a tolerant position
+	default:
+		prog = append(prog, gen.Let("g", gen.Var("f")), gen.Out(callAs("g", x))) // first class
+	}
+	gen.Check(prog, gen.NewData(2), "user function from the grammar")
 }
